@@ -3,11 +3,13 @@
 Regenerates lean/PetgraphModel/Extracted/*.lean from /repo/src on every run (fail-closed).
 
 Scratch.lean — for every function in src/algo/*.rs (and visit/traversal.rs, visit/dfsvisit.rs): each scratch
-container sized by a graph size function (vec![_; E], FixedBitSet::with_capacity(E), x.resize(E, _)), which
+container sized by a graph size function (vec![_; E], FixedBitSet::with_capacity(E), x.resize(E, _),
+UnionFind::new(E) — indexed by the arguments of union/find/equiv —, and struct-literal fields `f: vec![_; E]`
+— indexed as `self.f[..]` anywhere in the file), which
 size function E comes from (node_count / node_bound / edge_count / edge_bound / size_hint / other), whether
 the container is indexed through `to_index` (or a closure alias of it, or `.index()`), whether the function
 enumerates `0..node_count` and maps the numbers back with `from_index`, and whether the function's signature
-restricts the graph to compactly indexed types.  Theorems/C07.lean proves from this table that no scratch
+(or the header of the `impl` block the function is in) restricts the graph to compactly indexed types.  Theorems/C07.lean proves from this table that no scratch
 container can be indexed out of bounds on a graph with vacant indices.
 
 If a source shape is not recognised the script writes a definition that makes the theorem fail and exits 1.
@@ -28,7 +30,7 @@ def strip_comments(src):
     return "\n".join(out)
 
 def functions(src):
-    """yield (name, signature_text, body_text) for every fn item"""
+    """yield (name, signature_text, body_text, start_offset) for every fn item"""
     for m in re.finditer(r"\bfn\s+([A-Za-z_][A-Za-z0-9_]*)", src):
         name = m.group(1)
         i = m.end()
@@ -59,7 +61,52 @@ def functions(src):
                 if depth == 0:
                     break
             k += 1
-        yield name, sig, src[j:k + 1]
+        yield name, sig, src[j:k + 1], m.start()
+
+def impl_blocks(src):
+    """(start, end, header_text) of every `impl … {` block"""
+    res = []
+    for m in re.finditer(r"\bimpl\b", src):
+        j = m.end()
+        while j < len(src) and src[j] not in "{;":
+            j += 1
+        if j >= len(src) or src[j] == ";":
+            continue
+        depth, k = 0, j
+        while k < len(src):
+            if src[k] == "{":
+                depth += 1
+            elif src[k] == "}":
+                depth -= 1
+                if depth == 0:
+                    break
+            k += 1
+        res.append((m.start(), k, src[m.start():j]))
+    return res
+
+def balanced(text, i, open_c="(", close_c=")"):
+    """text[i] is just after an opening bracket: return (contents, index after the closing bracket)"""
+    depth, j = 1, i
+    while j < len(text) and depth:
+        if text[j] == open_c: depth += 1
+        elif text[j] == close_c: depth -= 1
+        j += 1
+    return text[i:j - 1], j
+
+UF_METHODS = r"(?:union|find|find_mut|equiv|try_union|try_find|try_find_mut|try_equiv)"
+
+def uf_args_by_to_index(text, recv_pat, aliases):
+    """is some argument of `<recv>.union(..)/find(..)/…` in `text` computed by `to_index` (directly, through a
+    closure alias, or through a local bound — possibly by a tuple pattern — to an expression containing `to_index(`)?"""
+    hit = False
+    for m in re.finditer(recv_pat + r"\s*\.\s*" + UF_METHODS + r"\s*\(", text):
+        args, _ = balanced(text, m.end())
+        if "to_index(" in args or any(re.search(r"\b%s\(" % a, args) for a in aliases):
+            hit = True
+        for v in re.findall(r"[A-Za-z_][A-Za-z0-9_]*", args):
+            if re.search(r"\blet\s+[^=;]*\b%s\b[^=;]*=\s*[^;]*to_index\(" % re.escape(v), text):
+                hit = True
+    return hit
 
 SIZE_KINDS = [("node_bound()", "nodeBound"), ("edge_bound()", "edgeBound"), ("node_count()", "nodeCount"),
               ("edge_count()", "edgeCount"), ("size_hint()", "sizeHint")]
@@ -74,6 +121,13 @@ def classify_size(expr, body, depth=0):
         d = re.search(r"\blet\s+(?:mut\s+)?%s\s*(?::[^=]+)?=\s*([^;]+);" % re.escape(e), body)
         if d:
             return classify_size(d.group(1), body, depth + 1)
+    if not m and depth < 3:
+        # a compound expression (`c0 * (g.is_directed() as usize)`): any local in it that is a graph size
+        for v in re.findall(r"\b[A-Za-z_][A-Za-z0-9_]*\b(?!\s*[(!:.])", e):
+            if re.search(r"\blet\s+(?:mut\s+)?%s\s*(?::[^=]+)?=" % re.escape(v), body):
+                k = classify_size(v, body, depth + 1)
+                if k != "other":
+                    return k
     return "other"
 
 def to_index_aliases(body):
@@ -112,9 +166,15 @@ def main():
             problems.append("missing " + f); continue
         src = strip_comments(open(f).read())
         rel = os.path.relpath(f, os.path.join(REPO, "src"))
-        for name, sig, body in functions(src):
+        impls = impl_blocks(src)
+        n_uf_text = len(re.findall(r"\bUnionFind\s*(?:::\s*<[^>]*>\s*)?::\s*new\s*\(", src))
+        n_uf_seen = 0
+        for name, sig, body, pos in functions(src):
             nfuncs += 1
             compact = bool(re.search(r"NodeCompactIndexable|:\s*&?(?:mut\s+)?(?:'\w+\s+)?(?:Graph|List|UnweightedList|DiGraph|UnGraph)\s*<", sig))
+            # a method: the bounds of the enclosing `impl` block(s) count as well
+            impl_compact = any(a <= pos <= b and "NodeCompactIndexable" in h for a, b, h in impls)
+            compact = compact or impl_compact
             aliases = to_index_aliases(body)
             allocs = []
             for m in re.finditer(r"\blet\s+(?:mut\s+)?([A-Za-z_][A-Za-z0-9_]*)\s*(?::[^=;]+)?=\s*(?:Some\()?vec!\[", body):
@@ -151,6 +211,50 @@ def main():
                         if "to_index(" in cc or ".index()" in cc or any(re.search(r"\b%s\(" % a, cc) for a in aliases):
                             by_to_index = True
                 rows.append((rel, name, var, kind, by_to_index, compact))
+            # UnionFind::new(E): the "index" is every argument of union / find / equiv …; when the value is moved
+            # into a struct field the uses are `self.<field>.union(..)` elsewhere in the file
+            for m in re.finditer(r"\blet\s+(?:mut\s+)?([A-Za-z_][A-Za-z0-9_]*)\s*(?::[^=;]+)?=\s*UnionFind\s*(?:::\s*<[^>]*>\s*)?::\s*new\s*\(", body):
+                n_uf_seen += 1
+                var = m.group(1)
+                sz, _ = balanced(body, m.end())
+                kind = classify_size(sz, body)
+                if kind == "other":
+                    problems.append("%s::%s: UnionFind::new(%s): size expression not recognised" % (rel, name, sz.strip()))
+                    continue
+                by_to_index = uf_args_by_to_index(body, r"\b%s" % re.escape(var), aliases)
+                uf_compact = compact
+                fields = [var] if re.search(r"[{,]\s*%s\s*[,}]" % re.escape(var), body) else []
+                fields += [fm.group(1) for fm in re.finditer(r"\b([A-Za-z_][A-Za-z0-9_]*)\s*:\s*%s\s*[,}]" % re.escape(var), body)]
+                for fld in fields:
+                    if uf_args_by_to_index(src, r"\.\s*%s" % re.escape(fld), aliases):
+                        by_to_index = True
+                    # the consumers' impl blocks must be compact-only as well for the row to count as compact-only
+                    users = [h for a, b, h in impls if re.search(r"\.\s*%s\s*\.\s*%s" % (re.escape(fld), UF_METHODS), src[a:b])]
+                    if users and not all("NodeCompactIndexable" in h for h in users):
+                        uf_compact = False
+                rows.append((rel, name, var + " (UnionFind)", kind, by_to_index, uf_compact))
+            # struct-literal fields `f: vec![elem; E]` (e.g. Vf2State::new): indexed as `….f[..]` anywhere in the file
+            for m in re.finditer(r"(?<![A-Za-z0-9_:])([a-z_][A-Za-z0-9_]*)\s*:\s*vec!\[", body):
+                pre = body[:m.start()].rstrip()
+                if not pre or pre[-1] not in "{,":
+                    continue
+                inner, _ = balanced(body, m.end(), "[", "]")
+                d, cut = 0, -1
+                for k, c in enumerate(inner):
+                    if c in "[(": d += 1
+                    elif c in "])": d -= 1
+                    elif c == ";" and d == 0: cut = k
+                if cut < 0:
+                    continue
+                kind = classify_size(inner[cut + 1:], body)
+                if kind == "other":
+                    continue
+                fld = m.group(1)
+                by_to_index = False
+                for c in bracket_contents(src, fld):
+                    if "to_index(" in c or ".index()" in c:
+                        by_to_index = True
+                rows.append((rel, name, "field " + fld, kind, by_to_index, compact))
             # a size handed to a helper constructor (`let n = g.node_bound(); Tracker::new(n)`)
             for m in re.finditer(r"\blet\s+(?:mut\s+)?([A-Za-z_][A-Za-z0-9_]*)\s*=\s*([^;]*(?:node_count|node_bound|size_hint)\(\)[^;]*);", body):
                 v = m.group(1)
@@ -163,16 +267,32 @@ def main():
                     if kind in ("nodeCount", "sizeHint"):
                         rows.append((rel, name, "<range 0.." + m.group(1) + " -> from_index>", kind, True, compact))
                         break
+        if n_uf_seen != n_uf_text:
+            problems.append("%s: %d `UnionFind::new(` in the text but %d recognised as `let x = UnionFind::new(E);`" % (rel, n_uf_text, n_uf_seen))
     # sanity: the known allocation sites must have been seen (fail-closed against a silently blind extractor)
     expected = [("algo/k_shortest_path.rs", "k_shortest_path"), ("algo/ford_fulkerson.rs", "ford_fulkerson"),
                 ("algo/spfa.rs", "spfa"), ("algo/bellman_ford.rs", "bellman_ford_initialize_relax"),
                 ("algo/matching.rs", "greedy_matching_inner"), ("algo/coloring.rs", "dsatur_coloring"),
                 ("algo/articulation_points.rs", "articulation_points"), ("algo/page_rank.rs", "page_rank"),
-                ("algo/floyd_warshall.rs", "floyd_warshall")]
+                ("algo/floyd_warshall.rs", "floyd_warshall"),
+                ("algo/mod.rs", "connected_components"), ("algo/mod.rs", "is_cyclic_undirected"),
+                ("algo/min_spanning_tree.rs", "min_spanning_tree"), ("algo/isomorphism.rs", "new")]
     seen = {(r[0], r[1]) for r in rows}
     for e in expected:
         if e not in seen:
             problems.append("no scratch container recognised any more in %s::%s" % e)
+    # … and the particular containers (a union-find / a Vf2State vector that is no longer seen is a blind spot)
+    expected_vars = [("algo/mod.rs", "connected_components", "vertex_sets (UnionFind)"),
+                     ("algo/mod.rs", "is_cyclic_undirected", "edge_sets (UnionFind)"),
+                     ("algo/min_spanning_tree.rs", "min_spanning_tree", "subgraphs (UnionFind)"),
+                     ("algo/isomorphism.rs", "new", "field mapping"), ("algo/isomorphism.rs", "new", "field out"),
+                     ("algo/isomorphism.rs", "new", "field ins")]
+    seen3 = {(r[0], r[1], r[2]): r for r in rows}
+    for e in expected_vars:
+        if e not in seen3:
+            problems.append("scratch container `%s` of %s::%s not recognised any more" % (e[2], e[0], e[1]))
+        elif not seen3[e][4]:
+            problems.append("scratch container `%s` of %s::%s: its indexing through to_index is not recognised any more" % (e[2], e[0], e[1]))
     os.makedirs(OUT, exist_ok=True)
     with open(os.path.join(OUT, "Scratch.lean"), "w") as f:
         f.write("/- GENERATED by tools/extract.py from %s/src on every run — do not edit. -/\n" % REPO)
